@@ -287,6 +287,7 @@ def lane_fuzz(ctx):
     finally: shutil.rmtree(base, ignore_errors=True)
 
 def worker(ctx):
+    if os.environ.get('VERIF_C04_ONLYFUZZ') == '1': lane_fuzz(ctx); return      # development knob (sensitivity of lane D alone)
     ex = ctx.executor('xvexec')
     S = ctx.stats
     # ---- lane B first: deterministic share of the sweep ----
